@@ -755,6 +755,11 @@ class _Simu(_IObserver, _params.Updatable, ABC):
     # Solutions
     # ----------------------------------------------
 
+    def __Get_folder_listMesh(self) -> str:
+        """Folder the saved meshes of the history are relative to: the folder of the last `Save`
+        (not `self.folder`, which may have been changed since)."""
+        return getattr(self, "_Simu__folder_listMesh", self.folder)
+
     @property
     def folder(self) -> str:
         return self.__folder
@@ -930,7 +935,7 @@ class _Simu(_IObserver, _params.Updatable, ABC):
         list_mesh: list[Mesh] = []
         for mesh in self.__listMesh:
             if isinstance(mesh, str):
-                mesh = Load_Mesh(Folder.Join(self.folder, mesh))
+                mesh = Load_Mesh(Folder.Join(self.__Get_folder_listMesh(), mesh))
             list_mesh.append(mesh._Gather())
 
         if MPI_RANK == 0:
@@ -962,7 +967,7 @@ class _Simu(_IObserver, _params.Updatable, ABC):
         mesh = self.__listMesh[index]
 
         if isinstance(mesh, str):
-            mesh = Load_Mesh(Folder.Join(self.folder, mesh))
+            mesh = Load_Mesh(Folder.Join(self.__Get_folder_listMesh(), mesh))
 
         self.__mesh = mesh
         mesh._Add_observer(self)
@@ -3198,10 +3203,12 @@ class _Simu(_IObserver, _params.Updatable, ABC):
         list_mesh = []
         for i, mesh in enumerate(self.__listMesh):
             if isinstance(mesh, str):
-                mesh = Load_Mesh(Folder.Join(folder, mesh))
+                # a mesh already saved is stored as a path relative to the folder of that save
+                mesh = Load_Mesh(Folder.Join(self.__Get_folder_listMesh(), mesh))
             path = mesh.Save(folder_meshes, f"mesh{i}")
             list_mesh.append(Folder.os.path.relpath(path, folder))
         self.__listMesh = list_mesh
+        self.__folder_listMesh = folder
 
         # Save simulation
         with open(path_simu, "wb") as file:
